@@ -3,7 +3,8 @@
 (*  LatInit [cfg (LatticeOps record; uni includes jointly unimodal dims), init ("linear"|"random"), lo, hi  *)
 (*           (explicit init range, or the default derived from the bounds when hasRange = FALSE), den,       *)
 (*           w (flat kernel), asserted ("pass"|"fail"), wc (kernel after the layer's own constraint)]         *)
-(*  PwlInit [lens, lo, hi, mono, slopes (equal_slopes), den, w, asserted, wc, cfg (PwlOps record)]            *)
+(*  PwlInit [lens, lo, hi, mono, slopes (equal_slopes), den, w, asserted, wc; optionally miss, missc (initial   *)
+(*           missing output and its constrained value), hasMin, omin, hasMax, omax]                           *)
 (*  KflInit [cfg (KflOps), xden, xs, oden, outs (layer outputs on a grid), outs2 (after constraints), asserted] *)
 EXTENDS InitializerOps, TraceBase
 P == INSTANCE PwlOps
@@ -34,6 +35,11 @@ PwlClauses(e) ==
      \cup (IF NearI(e.w, e.wc, e.tolu) THEN {} ELSE {"ConstraintKeepsInit"})
      \cup (IF \E n \in 1..Len(e.w) : ~FxNear(e.w[n], e.tolu, e.den, PwlInitKernel(lens, Nm(e.lo), Nm(e.hi), e.mono, e.slopes)[n])
            THEN {"DRIFT:PwlInitKernel"} ELSE {})
+     \* the learned output for missing inputs starts inside the layer's bounds and its constraint leaves it alone
+     \cup (IF Has(e, "miss") /\ ((e.hasMin /\ ~RLeq(Nm(e.omin), RAdd(Norm(e.miss, e.den), tol)))
+                               \/ (e.hasMax /\ ~RLeq(Norm(e.miss, e.den), RAdd(Nm(e.omax), tol))))
+           THEN {"MissingOutputInitInBounds"} ELSE {})
+     \cup (IF Has(e, "miss") /\ (e.miss - e.missc > e.tolu \/ e.missc - e.miss > e.tolu) THEN {"ConstraintKeepsInit"} ELSE {})
 KflClauses(e) ==
   LET c == [e.cfg EXCEPT !.omin = Nm(e.cfg.omin), !.omax = Nm(e.cfg.omax)]
       pt(n) == [d \in 1..Len(e.xs[n]) |-> Norm(e.xs[n][d], e.xden)]
